@@ -621,6 +621,7 @@ class Recorder:
         self.samples = []
         self.failures = []
         self.errors = []
+        self.fail_counts = {}
 
     def case(self, fingerprint, nontrivial=True, sample=None):
         self.evaluations += 1
@@ -630,6 +631,12 @@ class Recorder:
             self.samples.append(sample)
 
     def fail(self, obligation, what, descriptor, features=None):
+        # keep at most 3 examples per (obligation, features) class so that a frequent
+        # (e.g. known) class can never crowd a rare one out of the report
+        key = (obligation, tuple(sorted((str(k), str(v)) for k, v in (features or {}).items())))
+        self.fail_counts[key] = self.fail_counts.get(key, 0) + 1
+        if self.fail_counts[key] > 3:
+            return
         self.failures.append(
             {
                 "contract": self.name,
@@ -666,8 +673,9 @@ class Recorder:
             "evaluations": self.evaluations,
             "distinct_nontrivial": len(self.fingerprints),
             "samples": self.samples,
-            "failures": self.failures[:50],
-            "n_failures": len(self.failures),
+            "failures": self.failures[:400],
+            "n_failures": sum(self.fail_counts.values()),
+            "failure_classes": [{"obligation": k[0], "features": dict(k[1]), "count": n} for k, n in sorted(self.fail_counts.items(), key=lambda kv: -kv[1])][:100],
             "errors": self.errors[:10],
         }
 
@@ -735,6 +743,10 @@ def run_driver(modname, tier, seed, nproc=None, budget_s=None):
         if chunk:
             pending.append((chunk, pool.apply_async(_worker, ((modname, chunk),))))
         for descs, ar_ in pending:
+            if time.time() - t0 > budget_s * 1.5 + 20:
+                truncated = True
+                pool.terminate()
+                break
             consume(ar_.get(), descs)
     return {
         "driver": modname,
